@@ -126,7 +126,7 @@ CHECKS["C09"] = dict(
         dict(pkg="internal/verifchain", entry="HC09Compose", require_covers=["composed"]),
         dict(pkg="pkg/rtpfb", entry="HC09ConvertTWCC", require_covers=["converted", "received without delta"]),
         dict(pkg="pkg/rtpfb", entry="HC09Rtpfb", require_covers=["two feedbacks"]),
-    ] + [dict(pkg="pkg/rtpfb", entry="HC09CCFB", params=dict(pat=k), require_covers=["two reports", "received block matched"], tiers=t) for (k, t) in ((0, ["quick", "thorough"]), (1, ["quick", "thorough"]), (2, ["thorough"]), (3, ["thorough"]))],
+    ] + [dict(pkg="pkg/rtpfb", entry="HC09CCFB", params=dict(pat=k), flags=["-stopviol", "1"], require_covers=["two reports", "received block matched"], tiers=t) for (k, t) in ((0, ["quick", "thorough"]), (1, ["quick", "thorough"]), (2, ["thorough"]), (3, ["thorough"]))],
     bounds=dict(quick="gcc FeedbackAdapter: 3 covered sequence numbers + 1 beyond the declared range, every subset of them known to the history, base 10 or 65534 (wrap), one status-vector chunk (2-bit symbols, padded to 7) with every symbol combination / one run-length chunk of each symbol; symbolic deltas (small 0..255, large int16), sizes, departure times, reference time. RFC 8888 path: two streams x 3 sent packets (every membership subset of the first stream), one report block per stream starting at 65535 (wrap), symbolic received flags, ECN, 13-bit arrival offsets and report timestamp: each ack == (recorded size/departure, encoded arrival = reference - offset/1024 s, ECN), nothing else acknowledged. Composition: feedback built by the TWCC recorder of this library for 4 sent packets (every arrival subset, arrival steps from a table, 2 bases incl. wrap) decoded by the gcc adapter, and two successive recorder feedbacks over 5 sent packets through rtpfb convertTWCC + history: each sent packet reported at most once, in send order, with the recorded arrival within 125 us; rtpfb convertTWCC on one 2-bit status-vector chunk with every symbol combination (incl. received-without-delta) for 1..5 statuses: status, arrival and delta consumption per number. rtpfb RFC 8888 path through the public Bind* API: 5 packets written on two non-TWCC streams (2 interleavings; one stream wraps), a marshalled CCFeedbackReport with 1-2 report blocks (streams in either order or an SSRC never sent; begin at first-1, first or first+2; 2 metric blocks each; symbolic received bits, ECN, 13-bit offsets) read through the bound RTCP reader, then a second report acknowledging everything: every PacketReport in the attributes names a written packet with its size/departure, in send order, at most once over both reports, and carries exactly the received bit, ECN and report time - offset/1024 s of the block for its (SSRC, sequence number); packets the feedback does not cover are never reported as arrived; a newly acknowledged packet is in the report",
                 thorough="4 covered numbers; rtpfb RFC 8888 path with 4 interleavings (incl. all packets on one stream)"),
     outside=["more than one chunk per feedback", "LRU eviction at size 250 (membership is chosen directly)", "rtpfb RFC 8888 reports with several blocks for one SSRC, more than 2 metric blocks per block in the first report, report timestamps other than the read time", "composition with the RFC 8888 generator"],
@@ -243,15 +243,16 @@ CHECKS["C13"] = dict(
 )
 
 CHECKS["C11"] = dict(
-    jobs=[dict(pkg="internal/verifchain", entry="HC11Lifecycle", params=dict(kind=k), flags=["-unwind", "1200"], require_covers=["traffic after close returned", "rebind"]) for k in range(8)]
-       + [dict(pkg="internal/verifchain", entry="HC11Lifecycle", params=dict(kind=k, concretenow=1), flags=["-unwind", "1200"], require_covers=["traffic after close returned", "rebind"]) for k in (8, 11, 12, 13, 14, 15, 16, 17)]
+    jobs=[dict(pkg="internal/verifchain", entry="HC11Lifecycle", params=dict(kind=k), flags=["-unwind", "1200", "-preempt", "1"], require_covers=["traffic after close returned", "rebind"]) for k in range(8)]
+       + [dict(pkg="internal/verifchain", entry="HC11Lifecycle", params=dict(kind=k, concretenow=1), flags=["-unwind", "1200", "-preempt", "1"], require_covers=["traffic after close returned", "rebind"]) for k in (8, 11, 12, 13, 14, 15, 16, 17)]
        + [dict(pkg="internal/verifchain", entry="HC11ReadThenClose", params=dict(kind=k), flags=["-unwind", "1200"], require_covers=["closed", "writer bound"], no_native=True) for k in (3, 5, 6, 7)]
        + [dict(pkg="internal/verifchain", entry="HC11Unbind", params=dict(kind=k, concretenow=1), flags=["-unwind", "1200"], require_covers=["feedback about the stream before unbind"] + (["report after rebind"] if k in (4, 5, 7) else []), no_native=True) for k in (3, 4, 5, 7, 10)]
        + [dict(pkg="internal/verifchain", entry="HC11BindOrder", params=dict(kind=k, streams=3), flags=["-unwind", "1200"]) for k in (3, 4, 5, 6, 7, 10, 11, 12)]
        + [dict(pkg="internal/verifchain", entry="HC11BindOrder", params=dict(kind=k, streams=3, concretenow=1), flags=["-unwind", "1200"]) for k in (8, 13, 14, 15, 16, 17)]
+       + [dict(pkg="internal/verifchain", entry="HC11DumpHandoff", flags=["-unwind", "1200"], require_covers=["call parked in the hand-off while the logger is busy", "closed"], no_native=True)]
        + [dict(pkg="pkg/gcc", entry="HC11PacerClose", params=dict(concretenow=1), require_covers=["closed", "tick pending at Close"])],
-    level_note="PARTIAL CLAIM: lifecycle sequences are issued by one harness thread; the interceptor's own goroutines run in a cooperative model (they run when the caller blocks or yields; every select choice is explored), i.e. schedules at synchronisation granularity, not pre-emptive interleavings; 'promptly' is read as 'returns' (a call that can never return is reported as 'all goroutines blocked'). Close racing with traffic from another goroutine is not explored.",
-    bounds=dict(quick="each of {NoOp, TWCC header extension, NACK responder, NACK generator, report sender, report receiver, TWCC sender, RFC 8888 sender, packetdump receiver and sender, rtpfb, stats, flexfec encoder, jitter buffer, pacing, cc with its default gcc estimator and leaky bucket pacer}: BindRTCPWriter (writer failing nondeterministically), BindLocalStream, BindRemoteStream, BindRTCPReader; optional traffic (one write, one read of a well-formed TWCC-tagged packet, one failing RTCP read); optional Unbind+Bind of the same SSRCs with traffic; Close; the same traffic after Close; Unbind after Close. Plus, for the four reader-side interceptors: a Read issued on a second goroutine (with or without an RTCP writer bound) that is in progress or parked when Close is called must return. Plus, for NACK generator, report sender, report receiver, RFC 8888 sender and intervalpli: a bound stream with traffic gets feedback at a harness-fired tick; after Unbind of that stream two further ticks emit nothing about its SSRC; the same SSRC bound again with one packet far from the old sequence numbers reports from fresh state at the next tick (receiver report: nothing lost, highest = the new number; sender report: packet count 1; RFC 8888: block begins at the new number with one metric block; NACK generator: no NACK). Plus, for 14 interceptors: three remote and three local streams bound before any RTCP writer is bound: every Bind returns. Plus the gcc leaky bucket pacer (default pacer of the estimator behind the cc interceptor): 0-2 packets queued, a tick pending or not when Close is called, both outcomes of the done/tick select: Close returns only after the pacing goroutine has finished and nothing reaches the RTP writer afterwards",
+    level_note="PARTIAL CLAIM: lifecycle sequences are issued by one harness thread; the interceptor's own goroutines run in a cooperative model (they run when the caller blocks or yields; every select choice is explored; in the lifecycle jobs the choice of which runnable goroutine continues is explored too), i.e. schedules at synchronisation granularity, not pre-emptive interleavings; 'promptly' is read as 'returns' (a call that can never return is reported as 'all goroutines blocked'). Close racing with traffic from another goroutine is not explored.",
+    bounds=dict(quick="each of {NoOp, TWCC header extension, NACK responder, NACK generator, report sender, report receiver, TWCC sender, RFC 8888 sender, packetdump receiver and sender, rtpfb, stats, flexfec encoder, jitter buffer, pacing, cc with its default gcc estimator and leaky bucket pacer}: BindRTCPWriter (writer failing nondeterministically), BindLocalStream, BindRemoteStream, BindRTCPReader; optional traffic (one write, one read of a well-formed TWCC-tagged packet, one failing RTCP read); optional Unbind+Bind of the same SSRCs with traffic; Close; the same traffic after Close; Unbind after Close. Plus, for the four reader-side interceptors: a Read issued on a second goroutine (with or without an RTCP writer bound) that is in progress or parked when Close is called must return. Plus, for NACK generator, report sender, report receiver, RFC 8888 sender and intervalpli: a bound stream with traffic gets feedback at a harness-fired tick; after Unbind of that stream two further ticks emit nothing about its SSRC; the same SSRC bound again with one packet far from the old sequence numbers reports from fresh state at the next tick (receiver report: nothing lost, highest = the new number; sender report: packet count 1; RFC 8888: block begins at the new number with one metric block; NACK generator: no NACK). Plus, for 14 interceptors: three remote and three local streams bound before any RTCP writer is bound: every Bind returns. Plus packetdump (receiver and sender, RTP and RTCP path) with a slow dump target: a call parked in the hand-off to the busy logger goroutine when Close is called returns, Close returns once the target finishes, nothing is left behind. Plus the gcc leaky bucket pacer (default pacer of the estimator behind the cc interceptor): 0-2 packets queued, a tick pending or not when Close is called, both outcomes of the done/tick select: Close returns only after the pacing goroutine has finished and nothing reaches the RTP writer afterwards",
                 thorough="same"),
     outside=["Close racing with traffic at finer granularity than 'reader parked / not parked'", "two concurrent Close calls", "ticker fires during the sequence", "stats, packetdump, pacing, cc/gcc, jitter buffer and flexfec interceptors in the read-in-progress and unbind-then-tick scenarios (they are in the lifecycle and bind-order scenarios); intervalpli only in the unbind scenario (binding two PLI streams before any RTCP writer is bound fills its 1-slot channel and would block: not examined)", "release of per-stream memory (see C12)"],
     assumptions=["cooperative thread model", "tickers never fire unless fired by the harness"],
